@@ -1,4 +1,233 @@
-From Coq Require Import List.
-From JugV Require Import Model.Deps.
-Theorem C16_placeholder : True. Proof. exact I. Qed.
-Print Assumptions C16_placeholder.
+(* C16 - tasklets and wrappers are transparent views that carry their dependencies.
+   Statements only; every proof is [exact <lemma>].
+
+   Vocabulary (Model/Deps.v): [arg] = what can stand in an argument position of a Task (plain value,
+   task, list/tuple/dict of args, AGetitem base idx = base[idx] with base AND idx arbitrary args,
+   AFun base f = Tasklet(base, f), AMapSeq / AMapSlice = jug.mapreduce block_access(_slice),
+   ACustom = CustomHash, ANoHash* = NoHash, AOpaque = an object value() does not look into).
+   [st : tid -> option val] is the store (results by task hash) - the ONLY keys it has are task ids:
+   a derived object has no entry of its own.  [resolve st a] = value(a): [Ok v], [Missing] (a result
+   that is needed is not stored: Task.load's assertion) or [Raised] (an operation raised).
+   [impl_deps a] = what Task.dependencies() of a consumer of [a] yields (the code's walk);
+   [occurs t a] = t occurs syntactically in [a] outside NoHash/opaque objects. *)
+From Coq Require Import List Arith ZArith Bool PArith.
+From JugV Require Import Model.MapReduce Model.Slice Model.Deps Proofs.DepsFacts Proofs.DepsInvalidateFacts.
+From JugV Require Model.Dag Model.Invalidate.
+Import ListNotations.
+
+(* ---- transparency: value() of a derived object = the operation applied to the values ------------- *)
+
+(* indexing / slicing, the index being any argument (a constant, a slice, a task, a tasklet ...) *)
+Theorem C16_getitem_transparent : forall (st : tid -> option val) (base idx : arg),
+  resolve st (AGetitem base idx) =
+  rbind (resolve st base) (fun o => rbind (resolve st idx) (fun k => of_opt (val_getitem o k))).
+Proof. exact resolve_getitem. Qed.
+Print Assumptions C16_getitem_transparent.
+
+Theorem C16_getitem_value : forall (st : tid -> option val) (base idx : arg) (o k : val),
+  resolve st base = Ok o -> resolve st idx = Ok k ->
+  resolve st (AGetitem base idx) = of_opt (val_getitem o k).
+Proof. exact resolve_getitem_value. Qed.
+Print Assumptions C16_getitem_value.
+
+(* function wrapping: Tasklet(base, f) *)
+Theorem C16_tasklet_fun_transparent : forall (st : tid -> option val) (base : arg) (f : tlfun),
+  resolve st (AFun base f) = rbind (resolve st base) (fun o => of_opt (tl_apply f o)).
+Proof. exact resolve_fun. Qed.
+Print Assumptions C16_tasklet_fun_transparent.
+
+(* any nesting: a chain of index / function operations over any base is the chain of the
+   operations over the base's value, first failure first *)
+Theorem C16_any_nesting : forall (st : tid -> option val) (ops : list tlop) (base : arg),
+  resolve st (fold_left derive ops base) =
+  fold_left (fun r op => rbind r (fun o => op_apply st o op)) ops (resolve st base).
+Proof. exact resolve_derive_chain. Qed.
+Print Assumptions C16_any_nesting.
+
+(* iteratetask(base, n): the items are the first n elements of the value *)
+Theorem C16_iteratetask : forall (st : tid -> option val) (base : arg) (o : val) (l : list val) (n : nat),
+  resolve st base = Ok o -> seq_items o = Some l -> n <= length l ->
+  map (resolve st) (iteratetask_args base n) = map Ok (firstn n l).
+Proof. exact iteratetask_unpacks. Qed.
+Print Assumptions C16_iteratetask.
+
+(* return_tuple(n): the items are the components when the value has exactly n of them ... *)
+Theorem C16_return_tuple : forall (st : tid -> option val) (base : arg) (o : val) (l : list val),
+  resolve st base = Ok o -> seq_items o = Some l ->
+  map (resolve st) (return_tuple_args base (length l)) = map Ok l.
+Proof. exact return_tuple_unpacks. Qed.
+Print Assumptions C16_return_tuple.
+
+(* ... and every item raises when it has not *)
+Theorem C16_return_tuple_checks_length : forall (st : tid -> option val) (base : arg) (o : val) (l : list val) (n i : nat),
+  resolve st base = Ok o -> seq_items o = Some l -> length l <> n ->
+  resolve st (AFun base (FGetCheck i n)) = Raised.
+Proof. exact return_tuple_wrong_length. Qed.
+Print Assumptions C16_return_tuple_checks_length.
+
+(* CustomHash(x, h) resolves to the value of x; NoHash(v) to v; NoHash(task) to the task object itself *)
+Theorem C16_customhash_transparent : forall (st : tid -> option val) (x : arg),
+  resolve st (ACustom x) = resolve st x.
+Proof. exact resolve_custom. Qed.
+Print Assumptions C16_customhash_transparent.
+
+Theorem C16_nohash_unchanged : forall (st : tid -> option val) (v : val) (t : tid),
+  resolve st (ANoHashVal v) = Ok v /\ resolve st (ANoHashTask t) = Ok (VTaskRef t).
+Proof. exact (fun st v t => conj (resolve_nohash_val st v) (resolve_nohash_task st t)). Qed.
+Print Assumptions C16_nohash_unchanged.
+
+(* containers of derived objects are resolved element-wise *)
+Theorem C16_containers : forall (st : tid -> option val) (xs : list arg) (vs : list val),
+  Forall2 (fun x v => resolve st x = Ok v) xs vs -> resolve st (AList xs) = Ok (VList vs).
+Proof. exact resolve_list_values. Qed.
+Print Assumptions C16_containers.
+
+Theorem C16_dict_container : forall (st : tid -> option val) (kvs : list (key * arg)) (vs : list (key * val)),
+  Forall2 (fun kx kv => fst kx = fst kv /\ resolve st (snd kx) = Ok (snd kv)) kvs vs ->
+  resolve st (ADict kvs) = Ok (VDict vs).
+Proof. exact resolve_dict_values. Qed.
+Print Assumptions C16_dict_container.
+
+(* ---- mapped sequences and their slices ------------------------------------------------------------ *)
+(* [mapseq_wf st blocks bs len ys]: what jug.mapreduce.map(f, xs, map_step = bs) has built once its
+   block tasks have run: 1 <= bs, len = len(ys), block i holds the i-th piece of break_up(ys, bs). *)
+
+Theorem C16_mapseq_value : forall (st : tid -> option val) (blocks : list tid) (bs : nat) (len : Z) (ys : list val),
+  mapseq_wf st blocks bs len ys -> resolve st (AMapSeq blocks bs len) = Ok (VList ys).
+Proof. exact mapseq_value. Qed.
+Print Assumptions C16_mapseq_value.
+
+(* whatever the blocks hold: the value is their concatenation *)
+Theorem C16_mapseq_concat : forall (st : tid -> option val) (blocks : list tid) (vals : list (list val)) (bs : nat) (len : Z),
+  blocks_stored st blocks vals -> resolve st (AMapSeq blocks bs len) = Ok (VList (concat vals)).
+Proof. exact mapseq_value_concat. Qed.
+Print Assumptions C16_mapseq_concat.
+
+(* m[sl] for every Python slice: the slice of the whole value *)
+Theorem C16_mapslice_is_list_slice : forall (st : tid -> option val) (blocks : list tid) (bs : nat) (len : Z)
+    (ys : list val) (sl : pyslice) (s e k : Z),
+  mapseq_wf st blocks bs len ys -> py_indices sl len = Some (s, e, k) ->
+  resolve st (AMapSlice blocks bs len {| r_start := s; r_stop := e; r_step := k |}) =
+  of_opt (val_getitem (VList ys) (VSlice sl)).
+Proof. exact mapslice_is_list_slice. Qed.
+Print Assumptions C16_mapslice_is_list_slice.
+
+(* a slice with any range at all: the whole value indexed (Python int indexing) at the range's positions *)
+Theorem C16_mapslice_general : forall (st : tid -> option val) (blocks : list tid) (bs : nat) (len : Z)
+    (ys : list val) (r : prange),
+  mapseq_wf st blocks bs len ys ->
+  resolve st (AMapSlice blocks bs len r) =
+  rmap VList (rsequence (map (fun q => of_opt (py_list_get ys q)) (range_list r))).
+Proof. exact mapslice_value_general. Qed.
+Print Assumptions C16_mapslice_general.
+
+(* a slice of a slice (to any depth, by iteration): Python's slice of the first slice's value *)
+Theorem C16_mapslice_of_slice : forall (st : tid -> option val) (blocks : list tid) (bs : nat) (len : Z)
+    (ys : list val) (r : prange) (sl2 : pyslice) (r' : prange) (vs : list val),
+  mapseq_wf st blocks bs len ys -> r_step r <> 0%Z ->
+  resolve st (AMapSlice blocks bs len r) = Ok (VList vs) ->
+  range_slice r sl2 = Some r' ->
+  resolve st (AMapSlice blocks bs len r') = of_opt (val_getitem (VList vs) (VSlice sl2)).
+Proof. exact mapslice_of_slice. Qed.
+Print Assumptions C16_mapslice_of_slice.
+
+(* ---- derived objects carry their dependencies ------------------------------------------------------- *)
+
+(* the code's walk declares exactly the tasks that occur underneath: through containers, tasklet
+   bases AND indices, mapped-sequence blocks, slices of them, CustomHash - at any depth *)
+Theorem C16_walk_complete : forall (t : tid) (a : arg), occurs t a <-> In t (impl_deps a).
+Proof. exact occurs_impl_deps. Qed.
+Print Assumptions C16_walk_complete.
+
+(* resolution reads the store at declared dependencies only *)
+Theorem C16_reads_only_dependencies : forall (st st' : tid -> option val) (a : arg),
+  (forall d, In d (impl_deps a) -> st d = st' d) -> resolve st a = resolve st' a.
+Proof. exact resolve_frame. Qed.
+Print Assumptions C16_reads_only_dependencies.
+
+(* a result found missing during resolution belongs to a declared dependency: a consumer whose
+   declared dependencies are all stored (can_run) never dies on a missing result *)
+Theorem C16_waits_for_underlying : forall (st : tid -> option val) (a : arg),
+  resolve st a = Missing -> exists d, In d (impl_deps a) /\ st d = None.
+Proof. exact resolve_missing_blames. Qed.
+Print Assumptions C16_waits_for_underlying.
+
+Theorem C16_consumer_defined : forall (kinds : positive -> fkind) (st : tid -> option val) (t : task),
+  (forall d, In d (task_deps t) -> st d <> None) -> task_run kinds st t <> FMissing.
+Proof. exact task_run_defined. Qed.
+Print Assumptions C16_consumer_defined.
+
+(* values (and exceptions of operations) survive every extension of the store *)
+Theorem C16_monotone : forall (st st' : tid -> option val) (a : arg) (v : val),
+  (forall d w, st d = Some w -> st' d = Some w) -> resolve st a = Ok v -> resolve st' a = Ok v.
+Proof. exact resolve_monotone. Qed.
+Print Assumptions C16_monotone.
+
+Theorem C16_raised_monotone : forall (st st' : tid -> option val) (a : arg),
+  (forall d w, st d = Some w -> st' d = Some w) -> resolve st a = Raised -> resolve st' a = Raised.
+Proof. exact resolve_raised_monotone. Qed.
+Print Assumptions C16_raised_monotone.
+
+(* ---- ... and are invalidated with what is underneath (C09 applied to the walk) ----------------------- *)
+(* [dag_node name t] = the graph node of the task object t: (hash, function name, task_deps t) *)
+Theorem C16_consumer_depends_on_underlying : forall (d : Dag.dag) (name : positive) (t : task) (u : tid),
+  In (dag_node name t) d -> task_occurs u t -> Dag.depends_on d (t_id t) u.
+Proof. exact consumer_depends_on_underlying. Qed.
+Print Assumptions C16_consumer_depends_on_underlying.
+
+Theorem C16_invalidated_with_underlying_shell : forall (d : Dag.dag) (name : positive) (t : task) (u : tid),
+  In (dag_node name t) d -> task_occurs u t -> In (t_id t) (Invalidate.shell_invalid d u).
+Proof. exact consumer_invalidated_by_shell. Qed.
+Print Assumptions C16_invalidated_with_underlying_shell.
+
+Theorem C16_invalidated_with_underlying_cli : forall (d : Dag.dag) (m : Invalidate.matcher) (name : positive)
+    (t : task) (nu : Dag.node) (st : Dag.store),
+  Dag.wf_dag d -> In (dag_node name t) d -> In nu d -> m (Dag.n_name nu) = true ->
+  task_occurs (Dag.n_tid nu) t ->
+  In (t_id t) (Invalidate.cli_invalid d m) /\ Invalidate.cli_store d m st (t_id t) = false.
+Proof. exact consumer_invalidated_by_cli. Qed.
+Print Assumptions C16_invalidated_with_underlying_cli.
+
+(* ---- non-vacuity: a concrete nested argument ---------------------------------------------------------- *)
+(* tasks 1..3 hold  {0: [10, 20, 30], 7: 5},  (0, 2)  and  0 ;  blocks 4, 5, 6 hold the pieces of
+   [100..106] for map_step 3.
+   a1 = t1[t3][t2[1]]              (tasklet of tasklet, task-valued index over a dict result, tasklet-valued index)
+   a2 = m[1:6:2][::-1]             (slice of a slice of a mapped sequence)
+   a3 = {7: CustomHash([t3, NoHash(t1)]), 8: return_tuple(2) items of t2}  *)
+Local Open Scope positive_scope.
+Definition zi (z : Z) : val := VInt z.
+Definition ex_store : tid -> option val := st_of
+  [ (1, VDict [(KInt 0, VList [zi 10; zi 20; zi 30]); (KInt 7, zi 5)]);
+    (2, VTuple [zi 0; zi 2]);
+    (3, zi 0);
+    (4, VList [zi 100; zi 101; zi 102]);
+    (5, VList [zi 103; zi 104; zi 105]);
+    (6, VList [zi 106]) ].
+Definition ex_a1 : arg :=
+  AGetitem (AGetitem (ATask 1) (ATask 3)) (AGetitem (ATask 2) (AVal (zi 1))).
+Definition ex_a2 : arg :=   (* range(1,6,2) = 1,3,5 ; [::-1] -> range(5,-1,-2) *)
+  AMapSlice [4; 5; 6] 3%nat 7%Z {| r_start := 5%Z; r_stop := (-1)%Z; r_step := (-2)%Z |}.
+Definition ex_a3 : arg :=
+  ADict [(KInt 7, ACustom (AList [ATask 3; ANoHashTask 1]));
+         (KInt 8, ATuple (return_tuple_args (ATask 2) 2%nat))].
+Definition ex_task : task := {| t_id := 9; t_fn := 1; t_args := [ex_a1; ex_a2]; t_kwargs := [(1, ex_a3)] |}.
+
+Example C16_nonvacuous :
+  resolve ex_store ex_a1 = Ok (zi 30) /\
+  resolve ex_store ex_a2 = Ok (VList [zi 105; zi 103; zi 101]) /\
+  resolve ex_store ex_a3 = Ok (VDict [(KInt 7, VList [zi 0; VTaskRef 1]); (KInt 8, VTuple [zi 0; zi 2])]) /\
+  impl_deps ex_a1 = [1; 3; 2] /\ impl_deps ex_a2 = [4; 5; 6] /\ impl_deps ex_a3 = [3; 2; 2] /\
+  mapseq_wf ex_store [4; 5; 6] 3%nat 7%Z (map zi [100; 101; 102; 103; 104; 105; 106]%Z) /\
+  range_slice {| r_start := 1%Z; r_stop := 6%Z; r_step := 2%Z |} {| sl_start := None; sl_stop := None; sl_step := Some (-1)%Z |}
+    = Some {| r_start := 5%Z; r_stop := (-1)%Z; r_step := (-2)%Z |} /\
+  (* with task 3 (the task-valued index) missing, resolution reports a missing result *)
+  resolve (fun t => if Pos.eqb t 3 then None else ex_store t) ex_a1 = Missing /\
+  task_run (fun _ => FkApp) ex_store ex_task =
+    FRet (VApp 1 [zi 30; VList [zi 105; zi 103; zi 101]]
+              [(1, VDict [(KInt 7, VList [zi 0; VTaskRef 1]); (KInt 8, VTuple [zi 0; zi 2])])]).
+Proof.
+  split; [vm_compute; reflexivity|]. split; [vm_compute; reflexivity|]. split; [vm_compute; reflexivity|].
+  split; [reflexivity|]. split; [reflexivity|]. split; [reflexivity|].
+  split; [split; [repeat constructor | split; [reflexivity | repeat constructor]]|].
+  split; [vm_compute; reflexivity|]. split; vm_compute; reflexivity.
+Qed.
